@@ -8,7 +8,7 @@ def run(res, a):
     k = 3 if a.tier == "thorough" else 1
     plan = [("aligned", 14*k, 350), ("boundary", 4*k, 300), ("realloc", 4*k, 300), ("huge", 3*k, 40), ("malformed", 2*k, 200)]
     for sd in ([a.seed, a.seed + 1] if a.tier == "thorough" else [a.seed]):
-        apitrace.run_traces(res, "C03", plan, sd, dump=False, tag="" if sd == a.seed else "_s%d" % sd)
+        apitrace.run_traces(res, "C03", plan, sd, dump=False, tag="" if sd == a.seed else "_s%d" % sd, repeat=3)
     try:
         import spanmodel
         spanmodel.run(res, a.seed, a.tier)     # aligned-huge placement oracle and slice-array replay
